@@ -325,6 +325,18 @@ class ComponentRegistry:
         # Keep track of which components use which tags, because multiple components may
         # use the same tag.
         tag = entry.tag
+
+        # When the same component is registered again after the tag formatter has changed, the component
+        # moves to the new tag. So the old tag must be released like in `unregister()`, otherwise
+        # it would stay in the library even after the component is unregistered.
+        if existing_component and existing_component.tag != tag:
+            old_tag = existing_component.tag
+            self._tags[old_tag].discard(name)
+            if not self._tags[old_tag]:
+                del self._tags[old_tag]
+                if not is_tag_protected(self.library, old_tag) and old_tag in self.library.tags:
+                    del self.library.tags[old_tag]
+
         if tag not in self._tags:
             self._tags[tag] = set()
         self._tags[tag].add(name)
